@@ -31,7 +31,8 @@ class SyncSuite(Suite):
     n_cases = {"quick": 250, "thorough": 6000, "search": 120}
     rule = ("(source tree, prior destination) pairs: source in memory (readers with short-read schedules) or on disk, all entry types, hard-link groups, suid/sgid/sticky, xattrs, sizes around "
             "32KiB; destination fresh / edit-script of the source (touch, chmod, chown, rewrite, delete, type swap, add, renumber, relink) / unrelated tree; "
-            "merge on/off; differ metadata/none; receive filter; stream capacity 0..64; non-trivial = distinct op with >= 3 source entries")
+            "merge on/off; differ metadata/none; receive filter; stream capacity 0..64; 12% of the cases with an UNPRIVILEGED receiver (uid 1000 in a chroot'ed "
+            "child, owner-mapping filter, read-only files); non-trivial = distinct op with >= 3 source entries")
 
     def gen_case(self, rng):
         kind = "mem" if rng.random() < 0.6 else "disk"
@@ -56,8 +57,42 @@ class SyncSuite(Suite):
             opt["readsizes"] = [rng.choice([1000, 4096, 10000, 32768, 0]) for _ in range(rng.randint(1, 3))]
         return {"op": "sync", "src": {"kind": kind, "tree": tree}, "dst": dst, "opt": opt}
 
+    def gen_unpriv(self, rng):
+        """unprivileged receiver (uid/gid 1000, chroot'ed child): synthetic source, a receive filter that maps every owner to the receiver's
+        own id (the usual client-side configuration), read-only files (0444/0400), no devices, no privileged xattrs"""
+        def fit(tree):
+            out = []
+            for e in tree:
+                e = dict(e)
+                e.pop("x", None)
+                if e["t"] == "dir":
+                    e["mode"] = rng.choice([0o755, 0o700, 0o750])
+                elif e["t"] != "hardlink":
+                    e["mode"] = rng.choice([0o644, 0o444, 0o400, 0o600, 0o555, 0o755, 0o444])
+                out.append(e)
+            return out
+        tree = fit(gen.disk_tree(rng, rng.choice([6, 15, 35]), 4, types=("dir", "file", "file", "symlink", "hardlink", "fifo"),
+                                 file_sizes=(0, 1, 5, 100, 4096, 32767, 32768, 32769, 70000), xattrs=False))
+        r = rng.random()
+        if r < 0.35:
+            dst = []
+        else:
+            dst = fit(gen.mutate_disk_tree(rng, tree)) if r < 0.85 else fit(gen.disk_tree(rng, rng.choice([6, 15]), 4, types=("dir", "file", "symlink", "hardlink", "fifo"), xattrs=False))
+            dst = [e for e in dst if e["t"] in ("dir", "file", "symlink", "hardlink", "fifo")]
+            for e in dst:
+                if "uid" in e:
+                    e["uid"] = 1000
+                    e["gid"] = 1000
+        opt = {"notify": True, "cap": rng.choice([0, 1, 4, 32]), "seed": rng.randrange(1 << 30), "unpriv": True,
+               "rfilter": {"uid": 1000, "gid": 1000}}
+        if rng.random() < 0.1:
+            opt["differ"] = "none"
+        return {"op": "sync", "src": {"kind": "mem", "tree": tree}, "dst": dst, "opt": opt}
+
+    unpriv_share = 0.12
+
     def gen(self, rng, tier):
-        return [self.gen_case(rng) for _ in range(self.n_cases[tier])]
+        return [self.gen_unpriv(rng) if rng.random() < self.unpriv_share else self.gen_case(rng) for _ in range(self.n_cases[tier])]
 
     def prepare_model(self, ops, impl=None):
         out = []
@@ -167,6 +202,8 @@ class SyncSuite(Suite):
                     o["dst"] = t2
                 out.append(o)
         for k in ("merge", "differ", "rfilter"):
+            if k == "rfilter" and op["opt"].get("unpriv"):
+                continue        # an unprivileged receiver cannot chown: the owner-mapping filter is part of the configuration
             if k in op["opt"]:
                 o = dict(op)
                 o["opt"] = {a: b for a, b in op["opt"].items() if a != k}
